@@ -1,3 +1,137 @@
-From Coq Require Import List.
-Theorem C06_placeholder : True. Proof. exact I. Qed.
-Print Assumptions C06_placeholder.
+(* C06 - written files read back to the same data; re-writing is a fixpoint.
+   Writer model: Model/Writer.v (formats regenerated from the source, Gen/GenFormats.v); reader: the loader model of
+   C01.  Oracle laws (hypotheses, DESIGN.md 4.4): [fmt f v] is what Python's % formatting prints for the double v,
+   float()/int() parse it back to [rnd f v] (v rounded to the printed precision), printing [rnd f v] again gives
+   the same text; [dec] prints event numbers / counts.
+   Proved for every state that satisfies [Inv] (counts describe the held events, every held label has an end line) -
+   the states C04 proves reachable.  Statements only; proofs in Proofs/C06_*.v.
+   Partial: the per-format row round trip is proved for Oscar2013 and 22-column Oscar2013Extended; for 20/21-column
+   Extended and custom ASCII files it remains the hypothesis [row_rt] of the generic theorems; the JETSCAPE writer is
+   tied by correspondence and the round-trip oracle only.  Footers after an event-REMOVING filter: open finding
+   C06-footers-after-event-removal (the theorems take the state as it is: they then speak about the footers the
+   state holds under its renumbered labels). *)
+From Coq Require Import List String ZArith QArith Bool Arith.
+From SX Require Import Lib.Strs Lib.StrLemmas Gen.GenParticleMap Gen.GenFormats Model.Oscar Model.OscarDoc Model.Writer
+  Proofs.C01_Oscar Proofs.C01_Shapes Proofs.C06_Row Proofs.C06_Oscar Proofs.C06_Formats Proofs.C06_Example.
+Import ListNotations.
+Local Open Scope string_scope.
+
+(* the file written is the rendering of [doc_of s]: the three header lines, then per held event, numbered
+   0,1,.. by position: "# event i out n", one line per held particle, and that event's own end line renumbered i *)
+Theorem C06_write_is_render :
+  forall fmt dec s, Inv s -> printable fmt s -> os_events s <> [] ->
+  write_oscar fmt dec s = Ok (render (doc_of fmt dec s)).
+Proof. exact write_is_render. Qed.
+Print Assumptions C06_write_is_render.
+
+(* reading the written file back (C01 applied to the written document) *)
+Theorem C06_read_back :
+  forall tok_float tok_int pdg_valid fmt dec s format attrs,
+  Inv s -> printable fmt s -> os_events s <> [] ->
+  wf tok_float tok_int pdg_valid (doc_of fmt dec s) format attrs ->
+  exists file, write_oscar fmt dec s = Ok file /\
+               load tok_float tok_int pdg_valid None file SelAll
+               = Ok (expected tok_float tok_int pdg_valid (doc_of fmt dec s) format attrs).
+Proof. exact read_back. Qed.
+Print Assumptions C06_read_back.
+
+(* the object read back has the same number of events and the same per-event counts, under labels 0.. *)
+Theorem C06_read_back_counts :
+  forall tok_float tok_int pdg_valid fmt dec s format attrs, Inv s ->
+  l_nevents (expected tok_float tok_int pdg_valid (doc_of fmt dec s) format attrs) = os_nevents s /\
+  map snd (l_counts (expected tok_float tok_int pdg_valid (doc_of fmt dec s) format attrs)) = map snd (os_counts s) /\
+  map fst (l_counts (expected tok_float tok_int pdg_valid (doc_of fmt dec s) format attrs))
+    = map Z.of_nat (seq 0 (List.length (os_events s))).
+Proof. exact read_back_counts. Qed.
+Print Assumptions C06_read_back_counts.
+
+(* the written document is well-formed (so C06_read_back applies): SMASH end lines, numeric printing, rows that
+   survive their round trip *)
+Theorem C06_written_doc_wf :
+  forall tok_float tok_int pdg_valid fmt dec,
+  (forall z, numeric (dec z) = true) -> (forall z, (0 <= z)%Z -> tok_int (dec z) = Some (zq z)) ->
+  forall s, Inv s -> os_events s <> [] ->
+  oscar_format (nth 0 (os_header s) []) = Ok (os_format s, os_attrs s) -> std_format (os_format s) ->
+  kind_scan (nth 0 (os_header s) []) = SOther -> kind_scan (nth 1 (os_header s) []) = SOther ->
+  kind_scan (nth 2 (os_header s) []) = SOther ->
+  footers_std tok_float (os_footers s) (os_counts s) ->
+  Forall (Forall (row_rt tok_float tok_int pdg_valid fmt (os_format s) (os_attrs s) (ncols_of s))) (os_events s) ->
+  wf tok_float tok_int pdg_valid (doc_of fmt dec s) (os_format s) (os_attrs s).
+Proof. exact doc_wf. Qed.
+Print Assumptions C06_written_doc_wf.
+
+(* writing the re-read object gives the same file, byte for byte *)
+Theorem C06_rewrite_fixpoint :
+  forall tok_float tok_int pdg_valid fmt dec s, Inv s -> os_events s <> [] ->
+  Forall (Forall (row_rt tok_float tok_int pdg_valid fmt (os_format s) (os_attrs s) (ncols_of s))) (os_events s) ->
+  write_oscar fmt dec (reread tok_float tok_int pdg_valid fmt dec s) = write_oscar fmt dec s.
+Proof. exact rewrite_fixpoint. Qed.
+Print Assumptions C06_rewrite_fixpoint.
+
+(* one particle line, any column scheme: each printed column comes back, rounded, in its own slot; nothing else is set *)
+Theorem C06_row_roundtrip :
+  forall tok_float tok_int fmt rnd,
+  (forall f v, is_int_fmt f = false -> tok_float (fmt f v) = Some (rnd f v)) ->
+  (forall v, tok_int (fmt FD v) = Some (rnd FD v)) ->
+  forall ascii (cs : scheme) (vs : list Q) (p0 : particle),
+  List.length vs = List.length cs -> forallb (cast_ok ascii) cs = true ->
+  NoDup (map s_slot cs) -> Forall (fun c => (s_slot c < 25)%nat) cs -> List.length p0 = 25%nat ->
+  exists p',
+    fill tok_float tok_int ascii (mapping_from 0 cs) (toks_of fmt cs vs) p0 = Ok p' /\
+    (forall j x v, nth_error cs j = Some x -> nth_error vs j = Some v ->
+                   get_slot (s_slot x) p' = Some (rnd (s_fmt x) v)) /\
+    (forall s, ~ In s (map s_slot cs) -> get_slot s p' = get_slot s p0) /\
+    List.length p' = 25%nat.
+Proof. exact row_roundtrip. Qed.
+Print Assumptions C06_row_roundtrip.
+
+(* the writer's columns/formats and the loader's column tables (both regenerated) agree: Oscar2013 and Extended/22 *)
+Theorem C06_row_oscar2013 :
+  forall tok_float tok_int pdg_valid fmt rnd,
+  (forall f v, is_int_fmt f = false -> tok_float (fmt f v) = Some (rnd f v)) ->
+  (forall v, tok_int (fmt FD v) = Some (rnd FD v)) ->
+  (forall f v, fmt f (rnd f v) = fmt f v) -> (forall f v, numeric (fmt f v) = true) ->
+  forall ncols p vs, has_vals cs_2013 p vs -> row_rt tok_float tok_int pdg_valid fmt "Oscar2013" [] ncols p.
+Proof. exact row_rt_2013. Qed.
+Print Assumptions C06_row_oscar2013.
+
+Theorem C06_row_extended22 :
+  forall tok_float tok_int pdg_valid fmt rnd,
+  (forall f v, is_int_fmt f = false -> tok_float (fmt f v) = Some (rnd f v)) ->
+  (forall v, tok_int (fmt FD v) = Some (rnd FD v)) ->
+  (forall f v, fmt f (rnd f v) = fmt f v) -> (forall f v, numeric (fmt f v) = true) ->
+  forall p vs, has_vals cs_ext22 p vs -> row_rt tok_float tok_int pdg_valid fmt "Oscar2013Extended" [] 22 p.
+Proof. exact row_rt_ext22. Qed.
+Print Assumptions C06_row_extended22.
+
+(* composition, no row hypothesis left: an Oscar2013 object is written, read back, and re-written to the same file *)
+Theorem C06_oscar2013_roundtrip :
+  forall tok_float tok_int pdg_valid fmt dec rnd,
+  (forall f v, is_int_fmt f = false -> tok_float (fmt f v) = Some (rnd f v)) ->
+  (forall v, tok_int (fmt FD v) = Some (rnd FD v)) ->
+  (forall f v, fmt f (rnd f v) = fmt f v) -> (forall f v, numeric (fmt f v) = true) ->
+  (forall z, numeric (dec z) = true) -> (forall z, (0 <= z)%Z -> tok_int (dec z) = Some (zq z)) ->
+  forall s, Inv s -> os_events s <> [] -> os_format s = "Oscar2013" -> os_attrs s = [] ->
+  oscar_format (nth 0 (os_header s) []) = Ok ("Oscar2013", []) ->
+  kind_scan (nth 0 (os_header s) []) = SOther -> kind_scan (nth 1 (os_header s) []) = SOther ->
+  kind_scan (nth 2 (os_header s) []) = SOther ->
+  footers_std tok_float (os_footers s) (os_counts s) ->
+  Forall (Forall (fun p => exists vs, has_vals cs_2013 p vs)) (os_events s) ->
+  exists file,
+    write_oscar fmt dec s = Ok file /\
+    load tok_float tok_int pdg_valid None file SelAll
+      = Ok (expected tok_float tok_int pdg_valid (doc_of fmt dec s) "Oscar2013" []) /\
+    write_oscar fmt dec (reread tok_float tok_int pdg_valid fmt dec s) = Ok file.
+Proof. exact oscar2013_roundtrip. Qed.
+Print Assumptions C06_oscar2013_roundtrip.
+
+(* non-vacuity: the single held event (original label 3) is written as event 0 with its own end line *)
+Theorem C06_example :
+  Inv ex_state /\
+  write_oscar ex_fmt ex_dec ex_state
+  = Ok [["#!OSCAR2013"; "particle_lists"]; ["#"; "Units:"]; ["#"; "SMASH"];
+        ["#"; "event"; "0"; "out"; "1"];
+        ["1"; "0.5"; "0.5"; "0.5"; "0.5"; "1"; "0.5"; "0.5"; "0.5"; "2212"; "1"; "1"];
+        smash_footer "0" "7.125" "yes"].
+Proof. exact example_state. Qed.
+Print Assumptions C06_example.
